@@ -723,4 +723,118 @@ theorem np_fixMsgInCore (s : Sess) (m : InMsg) : (fixMsgInCore s m).2.isPending 
   · exact np_resendFixMsgIn _ _ _ _ _
   · exact np_resendFixMsgIn _ _ _ _ _
 
+/-! ## arming of the peer timer, the heartbeat interval -/
+
+theorem incoming_arm (fuel : Nat) (s : Sess) (m : Option InMsg) (hc : s.st.connected = true) :
+    ∃ x : Sess, incoming (fuel + 1) s m = x.emit (.armPeer (1200 * x.hb)) := by
+  unfold incoming
+  simp only [checkSessionTime_noop fuel s (connected_sessionTime _ hc), hc, Bool.not_true, Bool.false_eq_true, if_false]
+  exact ⟨_, rfl⟩
+
+theorem step_incoming_arm (s : Sess) (m : Option InMsg) (hc : s.st.connected = true) :
+    ∃ pre, (step s (.incomingMsg m)).2.1 = pre ++ [.armPeer (1200 * (step s (.incomingMsg m)).1.hb)] := by
+  obtain ⟨x, hx⟩ := incoming_arm (4 * s.clearLog.inbox.length + 7) s.clearLog m hc
+  unfold step stepCore
+  simp only [fuelOf_succ, hx]
+  exact ⟨x.log.reverse, by simp [Sess.emit, Sess.clearLog]⟩
+
+theorem hb_persistOut (s : Sess) (q : Int) (m : OutMsg) : (s.persistOut q m).hb = s.hb := by
+  unfold Sess.persistOut; split <;> rfl
+theorem hb_sendQueued (s : Sess) : (sendQueued s).hb = s.hb := by
+  unfold sendQueued; split <;> rfl
+theorem hb_prep (s : Sess) (m : OutMsg) : (prep s m).2.hb = s.hb := by
+  unfold prep
+  simp only []
+  repeat' split
+  all_goals first | rfl | exact hb_persistOut _ _ _
+theorem hb_dropAndSend (s : Sess) (m : OutMsg) : (dropAndSend s m).hb = s.hb := by
+  unfold dropAndSend
+  have := hb_prep s m
+  generalize prep s m = r at this
+  obtain ⟨o, s'⟩ := r
+  cases o with
+  | none => exact this
+  | some m' => simp only [hb_sendQueued]; exact this
+
+theorem hb_verifyAppImpl (s : Sess) (m : InMsg) : (verifyAppImpl s m).1.hb = s.hb := by
+  unfold verifyAppImpl
+  split
+  · rfl
+  · dsimp only
+    split <;> rfl
+
+theorem hb_verifySelect (s : Sess) (m : InMsg) (a b c : Bool) : (verifySelect s m a b c).1.hb = s.hb := by
+  unfold verifySelect
+  repeat' split
+  all_goals first | rfl | exact hb_verifyAppImpl s m
+
+theorem hb_logonFinish (s : Sess) (m : InMsg) : (logonFinish s m).1.hb = s.hb := by
+  unfold logonFinish
+  simp only []
+  split <;> rfl
+
+/-- the interval in force after the Logon reply -/
+def hbAfterLogon (s : Sess) (m : InMsg) : Int :=
+  if s.cfg.initiator then s.hb
+  else if s.cfg.hbOverride then s.hb
+  else match getInt m 108 with | .val h => h | _ => s.hb
+
+theorem hb_logonReply (s : Sess) (m : InMsg) (flag : Bool) : (logonReply s m flag).hb = hbAfterLogon s m := by
+  unfold logonReply hbAfterLogon sendLogonInReplyTo
+  by_cases hi : s.cfg.initiator = true
+  · simp [hi]
+  · by_cases ho : s.cfg.hbOverride = true
+    · simp [hi, ho, hb_dropAndSend]
+    · simp only [hi, ho, Bool.not_false, Bool.false_eq_true, if_true, if_false, hb_dropAndSend]
+      cases getInt m 108 <;> rfl
+
+/-- whenever `handleLogon` gets as far as the reply (accepted, or accepted with a gap), the interval in force is the
+    peer's 108 for an acceptor without override, the configured one otherwise -/
+theorem hb_handleLogon (s s' : Sess) (m : InMsg) (r : Option LogonErr) (h : handleLogon s m = (s', r))
+    (hok : r = none ∨ ∃ n t, r = some (.rej (.tooHigh n t))) : s'.hb = hbAfterLogon s m := by
+  unfold handleLogon at h
+  split at h
+  · simp only [Prod.mk.injEq] at h
+    rcases hok with rfl | ⟨n, t, rfl⟩ <;> simp at h
+  · simp only [] at h
+    generalize hs1 : (if (!s.cfg.initiator && s.cfg.refreshOnLogon) = true then s.emit Obs.refresh else s) = s1 at h
+    have e1 : s1.hb = s.hb ∧ s1.cfg = s.cfg := by rw [← hs1]; split <;> exact ⟨rfl, rfl⟩
+    have hv := hb_verifyAppImpl s1 m
+    have hq := q_verifyAppImpl s1 m
+    split at h
+    · rename_i s2 r' heq
+      simp only [Prod.mk.injEq] at h
+      have := verifyAppImpl_notHigh s1 m r' (by rw [heq])
+      rcases hok with rfl | ⟨n, t, rfl⟩
+      · simp at h
+      · simp only [Option.some.injEq, LogonErr.rej.injEq] at h; rw [h.2] at this; cases this
+    · rename_i s2 heq
+      rw [heq] at hv hq
+      simp only [] at hv hq h
+      generalize hs3 : (if ((if s2.cfg.initiator = true then false else s2.cfg.resetOnLogon) || logonResetFlag m && !s2.sentReset) = true
+          then s2.storeReset else s2) = s3 at h
+      have e3 : s3.hb = s2.hb ∧ s3.cfg = s2.cfg := by
+        rw [← hs3]
+        by_cases hc : ((if s2.cfg.initiator = true then false else s2.cfg.resetOnLogon) || logonResetFlag m && !s2.sentReset) = true
+        · rw [if_pos hc]; exact ⟨rfl, rfl⟩
+        · rw [if_neg hc]; exact ⟨rfl, rfl⟩
+      have hv2 := hb_verifySelect s3 m false true false
+      have hq2 := q_verifySelect s3 m false true false
+      split at h
+      · rename_i s4 r' heq2
+        simp only [Prod.mk.injEq] at h
+        have := verifySelect_notHigh s3 m true false r' (by rw [heq2])
+        rcases hok with rfl | ⟨n, t, rfl⟩
+        · simp at h
+        · simp only [Option.some.injEq, LogonErr.rej.injEq] at h; rw [h.2] at this; cases this
+      · rename_i s4 heq2
+        rw [heq2] at hv2 hq2
+        simp only [] at hv2 hq2
+        have hfin := hb_logonFinish (logonReply s4 m (logonResetFlag m)) m
+        rw [h] at hfin
+        simp only [] at hfin
+        rw [hfin, hb_logonReply]
+        unfold hbAfterLogon
+        rw [hq2.cfg, e3.2, hq.cfg, e1.2, hv2, e3.1, hv, e1.1]
+
 end Qfx.Sess
